@@ -285,7 +285,7 @@ def prove_scenario(scn, *, seed=0, crosscheck=2, max_paths=4000, timeout_ms=1000
         holder["mk"] = mk
         try:
             claims = scn(mk)
-        except (Undecided, Infeasible, Refuted):
+        except (Undecided, Infeasible, Refuted, TimeoutError):
             raise
         except Exception as e:
             # the code under contract raised on symbolic input. If it also raises on a concrete
